@@ -37,7 +37,10 @@ macro "tr_auto" : tactic =>
   `(tactic| (intros; first
     | (simp_all [FMap.get_set, FMap.get_del]; done)
     | omega
-    | (left; rfl)))
+    | (left; rfl)
+    | (simp only [FMap.get_set, FMap.get_del] at *; split <;> simp_all; done)
+    | (simp only [FMap.get_set, FMap.get_del] at *; split at * <;> simp_all; done)
+    | (refine Or.inr ⟨_, by simp_all [FMap.get_set, FMap.get_del], rfl, rfl, rfl, Or.inl rfl, by simp⟩)))
 
 structure Tr (s s' : ChainState) : Prop where
   log : s'.log = s.log ∨ ∃ e, s'.log = s.log ++ [e] ∧ EvOK s s' e
